@@ -148,6 +148,8 @@ package consensus
 //@   ensures [C19] @noStaleHash p.hash == nil
 //@ func (*Payload).Hash
 //@   requires p.hash == nil && p.message.payload != nil
+//@   modifies gEncoded, gHashed, gLastHash
+//@   ensures [C19] @hashedFromContent gHashed == old(gHashed) + 1 && result == gLastHash
 //@   ensures [C19] @noStaleHash p.hash == nil
 //@   ensures [C19] @contentKept p.version == old(p.version) && p.validatorIndex == old(p.validatorIndex) && p.prevHash == old(p.prevHash) && p.height == old(p.height) && p.message.cmType == old(p.message.cmType) && p.message.viewNumber == old(p.message.viewNumber) && p.message.payload == old(p.message.payload)
 //@ func (Payload).MarshalUnsigned
@@ -187,6 +189,8 @@ package consensus
 //@   requires p != nil
 //@   ensures [C19] @none implies(old(m.prepareRequest) == nil, result == nil)
 //@   ensures [C19] @rebuilt implies(old(m.prepareRequest) != nil, result != nil && as(Payload, result).message.cmType == dbft.PrepareRequestType && as(Payload, result).message.viewNumber == p.ViewNumber() && as(Payload, result).height == p.Height() && as(Payload, result).validatorIndex == ind && as(Payload, result).hash == nil)
+// the stored hash names the ORIGINAL proposal (set by AddPayload or by the decoder); giving a proposal back does not re-derive it
+//@   ensures [C19] @storedHashKept m.preparationHash == old(m.preparationHash) && implies(m.preparationHash != nil, *m.preparationHash == old(*m.preparationHash)) && m.prepareRequest == old(m.prepareRequest)
 //@   ensures [C19] @sameHeader implies(old(m.prepareRequest) != nil, as(Payload, result).version == gProposalVersion && as(Payload, result).prevHash == gProposalPrevHash)
 //@   ensures [C19] @sameBody implies(old(m.prepareRequest) != nil, as(Payload, result).message.payload != nil && as(prepareRequest, as(Payload, result).message.payload).timestamp * 1000000000 == m.prepareRequest.Timestamp() && as(prepareRequest, as(Payload, result).message.payload).nonce == m.prepareRequest.Nonce() && sametable(as(prepareRequest, as(Payload, result).message.payload).transactionHashes, m.prepareRequest.TransactionHashes()))
 
@@ -205,6 +209,7 @@ package consensus
 //@   loop 1: invariant forall(k, 0, idx, payloads[k] != nil && as(Payload, payloads[k]).message.cmType == dbft.PrepareResponseType && as(Payload, payloads[k]).message.viewNumber == p.ViewNumber() && as(Payload, payloads[k]).height == p.Height() && as(Payload, payloads[k]).hash == nil)
 //@   loop 1: invariant forall(k, 0, idx, as(Payload, payloads[k]).validatorIndex == m.preparationPayloads[k].ValidatorIndex)
 //@   loop 1: invariant forall(k, 0, idx, as(Payload, payloads[k]).message.payload != nil && as(prepareResponse, as(Payload, payloads[k]).message.payload).preparationHash == *m.preparationHash)
+//@   ensures [C19] @storedHashKept m.preparationHash == old(m.preparationHash) && implies(m.preparationHash != nil, *m.preparationHash == old(*m.preparationHash))
 //@   ensures [C19] @none implies(m.preparationHash == nil, len(result) == 0)
 //@   ensures [C19] @onePerResponder implies(m.preparationHash != nil, len(result) == len(m.preparationPayloads))
 //@   ensures [C19] @sameSlot implies(m.preparationHash != nil, forall(k, 0, len(result), result[k] != nil && as(Payload, result[k]).message.cmType == dbft.PrepareResponseType && as(Payload, result[k]).message.viewNumber == p.ViewNumber() && as(Payload, result[k]).height == p.Height() && as(Payload, result[k]).hash == nil))
@@ -255,8 +260,12 @@ package consensus
 
 // assumed about the neighbouring packages (internal/crypto, internal/merkle): the hash is a function of the bytes,
 // a tree over a non-empty list has a root, a signature is checked over its first 64 bytes
+//@ ghost gHashed Int
+//@ ghost gLastHash Ref
 //@ extern crypto.Hash256
 //@   pure
+//@   ghost gHashed = gHashed + 1
+//@   ghost gLastHash = result
 //@ extern merkle.NewMerkleTree
 //@   ensures implies(len(arg0) > 0, result != nil)
 //@ extern merkle.(*Tree).Root
@@ -283,8 +292,10 @@ package consensus
 //@   requires pub != nil && len(sign) >= 64
 //@   modifies gEncoded
 //@ func (*neoBlock).Hash
-//@   modifies gEncoded, heap neoBlock.hash, heap box.*
+//@   modifies gEncoded, gHashed, gLastHash, heap neoBlock.hash, heap box.*
 //@   ensures [C19] @cachedOnce implies(old(b.hash) != nil, b.hash == old(b.hash) && result == *old(b.hash))
+// a block whose transactions were set (an empty list included) is hashed: one hash over one encoded value, the header
+//@   ensures [C19] @hashedFromHeader implies(old(b.hash) == nil && !isnil(b.transactions), gHashed == old(gHashed) + 1 && gEncoded == old(gEncoded) + 1 && result == gLastHash && b.hash != nil && *b.hash == result)
 //@ func NewPreBlock
 //@   requires timestamp / 1000000000 <= 4294967295
 //@   ensures [C19] @header result != nil && as(preBlock, result).base.Index == index && as(preBlock, result).base.PrevHash == prevHash && as(preBlock, result).base.ConsensusData == nonce && as(preBlock, result).base.Timestamp == timestamp / 1000000000 && as(preBlock, result).base.Version == 0
@@ -297,8 +308,10 @@ package consensus
 //@   requires pub != nil && len(sign) >= 64
 //@   modifies gEncoded
 //@ func (*amevBlock).Hash
-//@   modifies gEncoded, heap amevBlock.hash, heap box.*
+//@   modifies gEncoded, gHashed, gLastHash, heap amevBlock.hash, heap box.*
 //@   ensures [C19] @cachedOnce implies(old(b.hash) != nil, b.hash == old(b.hash) && result == *old(b.hash))
+// a block whose transactions were set (an empty list included) is hashed: one hash over one encoded value, the header
+//@   ensures [C19] @hashedFromHeader implies(old(b.hash) == nil && !isnil(b.transactions), gHashed == old(gHashed) + 1 && gEncoded == old(gEncoded) + 1 && result == gLastHash && b.hash != nil && *b.hash == result)
 
 // ---- byte-level readers check the length before they read ----
 
